@@ -2,6 +2,8 @@
 // the failing obligation is identified by (family, what, d[, i, j]); inputs are seeded, the oracle is dense
 // complex matrix arithmetic in long double written from the property text.
 #include <SQuIDS/SUNalg.h>
+#include <SQuIDS/const.h>
+#include <gsl/gsl_complex_math.h>
 #include "replay_common.h"
 #include "oracle.h"
 #include <random>
@@ -50,6 +52,27 @@ int main(int argc,char** argv){
       err=std::max(err,maxdiff(toMat(d,comps(A.UDaggerTransform(U))),mul(MU,mul(MA,dag(MU)))));
       err=std::max(err,maxdiff(toMat(d,comps(A.Rotate(U))),mul(dag(MU),mul(MA,MU))));
       gsl_matrix_complex_free(U);
+    }
+    if(fam=="mixing"){  // Const store, mixing matrix, RotateToB1/B0 vs U: U unitary, B1 = U^dagger A U = Rotate(U), B0 = U A U^dagger, B0 after B1 = identity, read-back
+      Const P; Mat MU=zeros(d); for(int i=0;i<d;i++) MU[i][i]=1;
+      std::vector<std::vector<double>> TH(d,std::vector<double>(d,0)), DE(d,std::vector<double>(d,0));
+      for(int j=1;j<d;j++) for(int i=0;i<j;i++){ TH[i][j]=U(g)*2; DE[i][j]=U(g)*2; if(rep==3) TH[i][j]=M_PI/2; if(rep==4) DE[i][j]=0; P.SetMixingAngle(i,j,TH[i][j]); P.SetPhase(i,j,DE[i][j]); }
+      for(int k=1;k<d;k++) P.SetEnergyDifference(k,0.5*k+rep);
+      for(int j=1;j<d;j++) for(int i=0;i<j;i++){ if(P.GetMixingAngle(i,j)!=TH[i][j]||P.GetPhase(i,j)!=DE[i][j]) { err=1; note="parameter does not read back as stored"; } }
+      for(int k=1;k<d;k++) if(P.GetEnergyDifference(k)!=0.5*k+rep){ err=1; note="energy difference does not read back as stored"; }
+      { bool t1=false,t2=false,t3=false; try{ P.SetMixingAngle(2,1,0.1);}catch(std::runtime_error&){t1=true;} try{ P.GetPhase(1,SQUIDS_MAX_HILBERT_DIM);}catch(std::runtime_error&){t2=true;} try{ P.GetEnergyDifference(0);}catch(std::runtime_error&){t3=true;}
+        if(!t1||!t2||!t3){ err=1; note="out-of-range or unordered state indices accepted"; } }
+      for(int j=1;j<d;j++) for(int i=0;i<j;i++){ Mat Rk=zeros(d); for(int q=0;q<d;q++) Rk[q][q]=1; long double th=TH[i][j], de=DE[i][j];
+        Rk[i][i]=std::cos(th); Rk[j][j]=std::cos(th); Rk[i][j]=std::sin(th)*cx(std::cos(de),-std::sin(de)); Rk[j][i]=-std::sin(th)*cx(std::cos(de),std::sin(de)); MU=mul(Rk,MU); }
+      auto Um=P.GetTransformationMatrix(d); Mat GU=zeros(d);
+      for(int i=0;i<d;i++) for(int j=0;j<d;j++){ gsl_complex z=gsl_matrix_complex_get(Um.get(),i,j); GU[i][j]=cx(GSL_REAL(z),GSL_IMAG(z)); }
+      err=std::max(err,maxdiff(GU,MU)); { Mat I=zeros(d); for(int q=0;q<d;q++) I[q][q]=1; err=std::max(err,maxdiff(mul(dag(GU),GU),I)); }
+      SU_vector B1=A; B1.RotateToB1(P); SU_vector B0=A; B0.RotateToB0(P); SU_vector back=B1; back.RotateToB0(P);
+      err=std::max(err,maxdiff(toMat(d,comps(B1)),mul(dag(MU),mul(MA,MU))));
+      err=std::max(err,maxdiff(toMat(d,comps(B0)),mul(MU,mul(MA,dag(MU)))));
+      err=std::max(err,maxdiff(toMat(d,comps(back)),MA));
+      err=std::max(err,maxdiff(toMat(d,comps(A.Rotate(Um.get()))),toMat(d,comps(B1))));
+      err=std::max(err,maxdiff(toMat(d,comps(A.UDaggerTransform(Um.get()))),toMat(d,comps(B0))));
     }
     if(fam=="factory"){
       for(int k=0;k<d;k++){ Mat E=zeros(d); E[k][k]=1; err=std::max(err,maxdiff(toMat(d,comps(SU_vector::Projector(d,k))),E)); }
